@@ -6,6 +6,15 @@ props = [json.loads(l)['id'] for l in open(os.path.join(V, 'properties.jsonl'))]
 TECH = "SMT-based symbolic execution of go/ssa (bounded model checking; z3 decides every obligation)"
 claims = {
 
+ "C08": dict(
+  text="AnnouncePingHandler.Handle / parseAnnouncePing / sessionFromAnnouncePingAttachment / signingContext executed from SSA on an announcement with an arbitrary decoded body and an arbitrary chain of up to D decoded hop records arriving over one of three links: every hop record that influences route, stored info or forwarding was verified (Ed25519ctx model) under the key bound to its router's address with a context containing this announcement's origin address and origin signature; unknown hop routers get a session only after their identity verified; own address in the chain => no effect; the added route is [self, signed hops in order with their signed delay/labels, origin] via the delivering peer, which must be the origin (no hops) or the outermost signer; forwarded copies keep body and origin signature, are never sent to origin / receiving link / routers in the chain / lite peers, and carry a new record {own address, receive latency and label, send label, previous appendix} signed with the same context.",
+  note="chain depth D=2 quick / 3 thorough (the code allows 100); CBOR = arbitrary decoded struct; Ed25519ctx idealised; AddRoute/AddPublicRouterInfo are recording models; the frame's own authentication is C07.",
+  tech=TECH),
+ "C19": dict(
+  text="Server.Lookup and Server.handleRequest executed from SSA: for each of 8 names (api, forbidden, ordinary, nested, non-.myco) and every combination of the three configurable sources holding that name (plus unrelated entries in every source) Lookup answers from the first source in the order api > resolve > forbidden > friends > mappings with exactly that source's address; handleRequest with symbolic Qtype and Qclass (all 2^32 combinations), upper/lower case and with/without trailing dot replies NameError unless the name is under .myco, the type is A/AAAA/SVCB/HTTPS/ANY and the class IN/ANY, and otherwise carries Lookup's address; no panic.",
+  note="query names range over a concrete universe (strings are not symbolic in the engine); one question per request (miekg/dns rejects QDCOUNT != 1 before the handler); dns.NewRR modelled; CleanDomain/IDN outside.",
+  tech=TECH),
+
  "C07": dict(
   text="PARTIAL: (ping) Router.handlePing/parsePingMsg/sessionFromPingHeader on an arbitrary ping-class frame (signed RouterPing/RouterHopPing or encrypted RouterCtrl, arbitrary bytes, arbitrary decoded header, known or unknown source): a ping handler runs only after the frame verified (signature / AEAD) under the key bound to its source, and on first contact a session exists only after the header's key material hashed to the frame source; (disconnect) DisconnectPingHandler.Handle with an arbitrary decoded body removes routes and sets the offline flag only for the frame's source and never forwards to the origin, the receiving link or lite peers. The exactness of RemoveDisconnected itself is checked under C11 (remove harness).",
   note="CBOR = arbitrary decoded struct or error; Ed25519/AEAD/hash idealised and recorded; hello/pong/error/announce handler effects are covered only as far as C14 (hello) and C08-style checks exist; replay after intervening traffic reduces to C03.",
